@@ -56,7 +56,7 @@ package tracer
 //@ func (*dataTracer).tracePrefixLocked
 //@   requires wfTracer(d) && d.isStreamProtocol && held[d.mu] && d.expecting == 0 && len(data) > 0
 //@   requires slicebase(data) != slicebase(d.prefix) //# the tracer's private prefix buffer is not the caller's buffer
-//@   modifies dataTracer.prefix, dataTracer.env, dataTracer.expecting, dataTracer.endStream, []byte, Envelope.*, bufContent,
+//@   modifies dataTracer.prefix, dataTracer.env, dataTracer.expecting, dataTracer.endStream, []byte, bufContent,
 //@            ghosts:cpl*, held, Trace.*, evN, evKind, evLen, evEnv, builder.*, RequestBodyData.*, ResponseBodyData.*, eventOffset.*, []Event, http.Request.*
 //@   ensures wfTracer(d) && held[d.mu]
 //@   ensures @ownbuffer slicebase(d.prefix) == old(slicebase(d.prefix)) || fresh(d.prefix)
@@ -100,10 +100,11 @@ package tracer
 //@ func (*dataTracer).trace
 //@   requires d != nil && !held[d.mu] && (wfTracer(d) || (d.builder == nil && !d.isStreamProtocol)) //# without builder (no headers seen yet) the bytes are only counted
 //@   requires len(data) > 0 ==> slicebase(data) != slicebase(d.prefix) //# the tracer's private prefix buffer is not the caller's buffer
-//@   modifies trS, held @ d.mu, held @ d.builder.mu, dataTracer.prefix @ d, dataTracer.env @ d, dataTracer.expecting @ d, dataTracer.actual @ d, dataTracer.endStream @ d, []byte, Envelope.*, bufContent,
+//@   modifies trS, held @ d.mu, held @ d.builder.mu, dataTracer.prefix @ d, dataTracer.env @ d, dataTracer.expecting @ d, dataTracer.actual @ d, dataTracer.endStream @ d, []byte, bufContent,
 //@            ghosts:cpl*, Trace.*, evN, evKind, evLen, evEnv, builder.*, RequestBodyData.*, ResponseBodyData.*, ResponseBodyEndStream.*, eventOffset.*, []Event, http.Request.*
 //@   assume_ensures trS == old(trS)[d := old(trS[d]) + bytes(data)] //# ghost bookkeeping: the byte stream seen by this tracer
 //@   ensures (old(d.builder) != nil ==> wfTracer(d)) && !held[d.mu] && d.builder == old(d.builder) && d.isStreamProtocol == old(d.isStreamProtocol)
+//@   ensures @idle-kept !old(d.isStreamProtocol) ==> d.prefix == old(d.prefix) && d.expecting == old(d.expecting) && d.env == old(d.env) && d.endStream == old(d.endStream)
 //@   ensures @events evN[d.builder] >= old(evN[d.builder])
 //@   ensures @untouched unchangedArray(data)
 //@   ensures @count !d.isStreamProtocol && old(d.actual) + len(data) <= 18446744073709551615 ==> d.actual == old(d.actual) + len(data) && evN[d.builder] == old(evN[d.builder])
@@ -156,7 +157,7 @@ package tracer
 //@   requires t != nil && t.reader != nil && t.builder != nil && t.whenDone != nil && wfTracer(t.dataTracer) && !held[t.dataTracer.mu] && t.dataTracer.builder == t.builder
 //@   requires slicebase(data) != slicebase(t.dataTracer.prefix) //# the tracer's private prefix buffer is not the caller's buffer
 //@   modifies trS, []byte, lastReadN, lastReadErr, lastReadArr, atomicBoolV, held, dataTracer.prefix, dataTracer.env, dataTracer.expecting, dataTracer.actual, dataTracer.endStream,
-//@            Envelope.*, bufContent, ghosts:cpl*, held, Trace.*, evN, evKind, evLen, evEnv, builder.*, RequestBodyData.*, ResponseBodyData.*, ResponseBodyEndStream.*, RequestBodyEnd.*, ResponseBodyEnd.*, eventOffset.*, []Event, http.Request.*
+//@            bufContent, ghosts:cpl*, held, Trace.*, evN, evKind, evLen, evEnv, builder.*, RequestBodyData.*, ResponseBodyData.*, ResponseBodyEndStream.*, RequestBodyEnd.*, ResponseBodyEnd.*, eventOffset.*, []Event, http.Request.*
 //@   ensures @passthrough n == lastReadN[t.reader] && err == lastReadErr[t.reader] && arrayof(data) == lastReadArr[t.reader]
 //@   ensures @traced trS[t.dataTracer] == old(trS[t.dataTracer]) + bytes(data[:n])
 //@   ensures wfTracer(t.dataTracer) && !held[t.dataTracer.mu]
@@ -203,7 +204,7 @@ package tracer
 //@ func (*tracingResponseWriter).Write
 //@   requires wfWriter(t) && !held[t.dataTracer.mu]
 //@   requires slicebase(data) != slicebase(t.dataTracer.prefix) //# the tracer's private prefix buffer is not the caller's buffer
-//@   modifies ghosts:*Src, trS, tracingResponseWriter.*, dataTracer.*, http.Response.*, map[string][]string, []string, []byte, bufContent, Envelope.*, held, lastWriteN, lastWriteErr, wrOut, rwStatusN, rwStatus,
+//@   modifies ghosts:*Src, trS, tracingResponseWriter.*, dataTracer.*, http.Response.*, map[string][]string, []string, []byte, bufContent, held, lastWriteN, lastWriteErr, wrOut, rwStatusN, rwStatus,
 //@            ghosts:cpl*, held, Trace.*, evN, evKind, evLen, evEnv, builder.*, eventOffset.*, []Event, http.Request.*, ResponseStart.*, RequestBodyData.*, ResponseBodyData.*, ResponseBodyEndStream.*, ResponseBodyEnd.*
 //@   ensures @passthrough result_0 == lastWriteN[t.respWriter] && result_1 == lastWriteErr[t.respWriter]
 //@   ensures @untouched unchangedArray(data)
